@@ -1,0 +1,31 @@
+//go:build verif
+
+package altbn128
+
+import "math/big"
+
+// Verification hook (build tag verif): re-exports existing identifiers only.
+
+// VerifTwistB returns the twist curve constant (real part, imaginary part).
+func VerifTwistB() (*big.Int, *big.Int) { return twistB.x, twistB.y }
+
+// VerifHexRoot returns the hexRoot constant (real part, imaginary part).
+func VerifHexRoot() (*big.Int, *big.Int) { return hexRoot.x, hexRoot.y }
+
+// VerifYParity re-exports yParity.
+func VerifYParity(y *big.Int) byte { return yParity(y) }
+
+// VerifYFromX re-exports yFromX.
+func VerifYFromX(x *big.Int) *big.Int { return yFromX(x) }
+
+// VerifGfP2Mul re-exports gfP2.multiply on (real, imaginary) pairs.
+func VerifGfP2Mul(ax, ay, bx, by *big.Int) (*big.Int, *big.Int) {
+	e := new(gfP2).multiply(&gfP2{ax, ay}, &gfP2{bx, by})
+	return e.x, e.y
+}
+
+// VerifGfP2Pow re-exports gfP2.pow on a (real, imaginary) pair.
+func VerifGfP2Pow(ax, ay, exp *big.Int) (*big.Int, *big.Int) {
+	e := new(gfP2).pow(&gfP2{ax, ay}, exp)
+	return e.x, e.y
+}
